@@ -210,7 +210,7 @@ def cmd_check(args, vx):
     want_kani = (tier == "thorough") or (bool(tool_problems) and not violations)
     if want_kani and os.environ.get("VX_NO_KANI") != "1":
         try:
-            hs = [h["name"] for h in json.load(open(os.path.join(vx.VERIF, "kani", "harnesses.json"))) if prop in (h.get("property") or h.get("properties") or [])]
+            hs = [h["name"] for h in json.load(open(os.path.join(vx.VERIF, "kani", "harnesses.json"))) if prop in (h.get("property") or h.get("properties") or []) and h.get("default", True)]
         except Exception:
             hs = []
         if hs:
